@@ -22,6 +22,33 @@ CHECKS = {
         "model on law-shaped expression groups evaluated in shuffled order; mixed-base prefixes numerically at 1e-9.",
    note=TB + "Float exponents of mixed-base prefixes are outside the exact model (property relaxes them to 1e-9). Axioms: none.",
    tech="Rocq proof: free-abelian-group normal forms over gmap + intern-table invariant; vm_compute correspondence", ref="DESIGN.md §4 C02"),
+ "C08": dict(
+   text="Generic memoisation theorem, proved for every planner function f, every cacheability rule and every interleaving: "
+        "C08_transparent / C08_every_answer (with invalidation on declaration each answer equals f of the declarations made "
+        "so far) and C08_refuted_without_invalidation. Tied to the code by (A) an AST-derived obligation that every lru_cache'd "
+        "function of conversions.py is cleared by both equate and translate, and (B) interleaved histories in one process vs the "
+        "same declarations + the query in fresh processes, re-checked in the kernel through the memo machine.",
+   note=TB + "Assumes the planner has no hidden state besides _ratios/_offsets and the two lru caches (validated by the "
+        "fresh-process differential). Axioms: none.",
+   tech="Rocq proof: cache-coherence invariant by induction over histories (parametric in the planner)", ref="DESIGN.md §4 C08"),
+ "C19": dict(
+   text="Registry machine (validate-then-mutate define/alias/derive/declare for units, prefixes, dimensions): Theorems C19_bound "
+        "(faithfulness invariant over all operation sequences: a key is bound to o iff o reports it, hence never two objects), "
+        "C19_step (a raising call changes nothing; a successful call binds and is reported, also for objects first created "
+        "anonymously). Per run: the shipped registries satisfy the invariant (rinvb by vm_compute on regenerated data) and the "
+        "machine reproduces the implementation's outcome and full registry diff after every call of random histories with "
+        "failing calls in every argument position; module import orders compared.",
+   note=TB + "Asynchronous exceptions between two mutation lines are out of scope. Axioms: none.",
+   tech="Rocq proof: registry invariant + atomicity by case analysis; vm_compute correspondence on registry diffs", ref="DESIGN.md §4 C19"),
+ "C20": dict(
+   text="Theorem C20_locked: for any number of threads and every schedule at source-line granularity, the locked "
+        "lookup/allocate/insert protocol returns one object to all threads, stores one entry, and later lookups return it; "
+        "C20_unlocked_refuted exhibits the race without the lock. Tied to the code by an AST-derived obligation that each "
+        "__new__ performs check-then-insert inside one `with _interning:` region, and by executing every preemption-bounded "
+        "2-thread schedule and random 3-thread schedules on the real code with a sys.settrace scheduler.",
+   note=TB + "Partial by nature: atomicity is the source line (as the property states); bytecode-level preemption, the GIL and "
+        "free-threaded builds are not modelled. Axioms: none.",
+   tech="Rocq proof: lock invariant over all interleavings + exhaustive bounded schedule replay", ref="DESIGN.md §4 C20"),
 }
 NA = {}
 def main():
